@@ -177,6 +177,18 @@ pub fn dispatch(t: &[&str]) -> Option<Out> {
             Some(Out::Ok(format!("{} {}", words(&r), words(&r2))))
         }
         // eia <ik> <count> <bearer> <dir> <len> <words>
+        // eia_big <key> <count> <bearer> <dir> <length> <seed>: 128-EIA3 over a message SYNTHESISED in-process
+        // (word i = 0x9e3779b9 * (i + 1) + seed, ceil(LENGTH/32) words): for LENGTH next to 2^32 (512 MiB of message)
+        "eia_big" => {
+            let p = |s: &str| u32::from_str_radix(s, 16).unwrap();
+            let len = p(t[5]);
+            let nw = ((len as u64 + 31) / 32) as usize;
+            let seed = p(t[6]);
+            let m: Vec<u32> = (0..nw).map(|i| 0x9e3779b9u32.wrapping_mul((i as u32).wrapping_add(1)).wrapping_add(seed)).collect();
+            let mut e = gm_zuc::eia::EIA::new(&unhex(t[1]), p(t[2]), p(t[3]), p(t[4]));
+            let r = e.gen_mac(&m, len);
+            Some(Out::Ok(format!("{:08x}", r)))
+        }
         "eia" => {
             let p = |s: &str| u32::from_str_radix(s, 16).unwrap();
             let mut e = gm_zuc::eia::EIA::new(&unhex(t[1]), p(t[2]), p(t[3]), p(t[4]));
